@@ -9,7 +9,7 @@ import zlib
 from core import hx, exc_name
 
 ID = 'C14'
-MODULES = ['Httoop.Props.C14']
+MODULES = ['Httoop.Props.C14', 'Httoop.Props.C13Form']
 THEOREMS = [
 	'Httoop.Codecs.compress_roundtrip',
 	'Httoop.Codecs.wire_coded_roundtrip',
@@ -21,6 +21,8 @@ THEOREMS = [
 	'Httoop.Codecs.plain_roundtrip_utf8',
 	'Httoop.Codecs.plain_roundtrip_latin1',
 	'Httoop.Codecs.plain_roundtrip_ascii',
+	'Httoop.Form.form_roundtrip_partial',
+	'Httoop.Form.form_text_roundtrip',
 	'Httoop.Codecs.c14_multipart_witness',
 	'Httoop.Codecs.c14_boundary_witness',
 ]
@@ -31,7 +33,7 @@ TRUSTED = [
 ]
 ASSUMPTIONS = ['multipart: the delimiter "--boundary" does not occur in a part (the property\'s own proviso); Multipart.decode of data without any delimiter raises IndexError, not DecodeError (malformed input, outside the property; the model reproduces it)']
 RULE = ('octet strings: every single octet value, all-equal and incompressible blocks, lengths around 0/1/4095/4096/4097/8192/10000, as bytes, list of pieces, generator, BytesIO; gzip and deflate through Body.compress/decompress, through composer + state machine (Content-Length and chunked), and coded messages from an independent sender (hand-written RFC 1952 members, one or several, optional header fields; zlib streams at all levels/window sizes); '
-	'multipart: 0-4 parts with header sets and binary contents, boundaries over the valid alphabet incl. dashes, contents that contain near-misses of the delimiter; mutated multipart data for the decoder; text/plain over UTF-8 / ISO-8859-1 / ASCII incl. unencodable text; JSON values incl. non-ASCII and nested; '
+	'multipart: 0-4 parts with header sets and binary contents, boundaries over the valid alphabet incl. dashes, contents that contain near-misses of the delimiter; mutated multipart data for the decoder; text/plain over UTF-8 / ISO-8859-1 / ASCII incl. unencodable text; JSON values incl. non-ASCII and nested; form data (pairs over letters, "+", space, "&", "=", "%", ";" and non-ASCII text, code points >= U+0010 - below that is C13\'s F1) through the codec and through Body.encode/decode; '
 	'message/http for simple requests and responses; non-trivial = a successful round trip; distinct by encoded octets')
 
 
@@ -158,8 +160,24 @@ def cases(rng, tier):
 		yield ('plaindec', rng.choice(('utf8', 'latin1', 'ascii')), (rng.choice((b'', b'', b'\xef\xbb\xbf', b'\xff\xfe', b'\xef\xbb')) + bytes(rng.choice((0x41, 0x80, 0xc3, 0xa9, 0xe2, 0x82, 0xac, 0xf0, 0x9f, 0xff, 0xed, 0xa0)) for _ in range(rng.randrange(6)))))
 	for _ in range(n):
 		yield ('json', rng.choice((None, 'UTF-8', 'ISO-8859-1', 'ASCII', 'UTF-16')), json.dumps(jvalue(rng)))
+	for pairs in FORMS:
+		yield ('form', 'utf-8', pairs)
+		yield ('form', 'iso8859-1', pairs)
+	for _ in range(n):
+		cs = rng.choice(('utf-8', 'iso8859-1'))
+		alpha = u'ab+ &=%;/?#~.-_*\u00e9\u00ff' + (u'\u20ac\U0001f600' if cs == 'utf-8' else u'') + u'\x10\x7f'
+		def text(lo):
+			return u''.join(rng.choice(alpha) for _ in range(rng.randrange(lo, 7)))
+		yield ('form', cs, tuple((text(1), text(0)) for _ in range(rng.choice((0, 1, 1, 2, 3)))))
 	for _ in range(n // 4):
 		yield ('http', rng.randrange(10 ** 9))
+
+
+# directed form data: the characters with a meaning of their own inside application/x-www-form-urlencoded
+FORMS = (
+	((u'name', u'x+y'),), ((u'q', u'1 + 1 = 2'),), ((u'a+b', u'c d'),), ((u'a', u'%2B'),), ((u'a', u'+'), (u'+', u' ')), ((u'a b', u'c&d=e'),),
+	((u'a', u'%20'), (u'b', u'%')), ((u'k', u''), (u'l', u'v')), ((u'a', u'1'), (u'a', u'2')), ((u'x', u'a;b'),), ((u'\u00e9', u'\u00ff+ '),),
+)
 
 
 def mutate(rng, data):
@@ -248,6 +266,9 @@ def model_lines(case):
 		return ['mp.encode %s %s' % (hx(b), ' '.join(args)), 'mp.decode %s %s' % (hx(b), hx(mp_encode_ref(b, parts)))]
 	if k == 'mpdec':
 		return ['mp.decode %s %s' % (hx(case[1]), hx(case[2]))]
+	if k == 'form':
+		from props import c13
+		return c13.model_lines(case)
 	if k == 'plain':
 		return ['plain.encode %s %s' % (case[1], hx(case[2].encode('utf-8', 'surrogatepass')))] if not any(0xd800 <= ord(c) < 0xe000 for c in case[2]) else None
 	if k == 'plaindec':
@@ -278,6 +299,9 @@ def impl_lines(case):
 		return [hx(enc), mp_decode_line(b, mp_encode_ref(b, parts))]
 	if k == 'mpdec':
 		return [mp_decode_line(case[1], case[2])]
+	if k == 'form':
+		from props import c13
+		return c13.impl_lines(case)
 	if k == 'plain':
 		from httoop.codecs.text.plain import PlainText
 		try:
@@ -435,6 +459,21 @@ def oracle(case):
 			return {'what': 'text/plain round trip raised %s' % exc_name(e), 'case': describe(case), 'finding': None}
 		if back != t:
 			return {'what': 'text/plain round trip: %r != %r' % (back, t), 'case': describe(case), 'finding': None}
+		return None
+	if k == 'form':
+		from httoop.codecs.application.x_www_form_urlencoded import FormURLEncoded
+		from httoop.messages.body import Body
+		_, cs, pairs = case
+		mt = 'application/x-www-form-urlencoded; charset=%s' % cs
+		try:
+			back = FormURLEncoded.decode(FormURLEncoded.encode(pairs, cs), cs)
+			b = Body(mimetype=mt)
+			b.encode(pairs)
+			back2 = Body(mimetype=mt).decode(bytes(b))
+		except Exception as e:
+			return {'what': 'form round trip (charset %s) raised %s: %s' % (cs, exc_name(e), e), 'case': describe(case), 'finding': None}
+		if back != tuple(pairs) or tuple(back2) != tuple(pairs):
+			return {'what': 'form round trip (charset %s): %r came back as %r / through Body %r' % (cs, pairs, back, back2), 'case': describe(case), 'finding': None}
 		return None
 	if k == 'json':
 		from httoop.codecs.application.json import JSON
@@ -626,6 +665,8 @@ def nontrivial(case, outs):
 		return (k, case[1], outs[0]) if outs and outs[0].startswith('ok') else None
 	if k == 'zipwire':
 		return (k, case[1], len(case[2]), case[3] % 97)
+	if k == 'form':
+		return (k, case[1], case[2]) if outs and outs[-1].startswith('ok') else None
 	return (k, case[1], case[2] if k == 'json' else None)
 
 
@@ -670,6 +711,8 @@ def undescribe(d):
 		return ('plaindec', d[1], bytes.fromhex(d[2]))
 	if k == 'zipwire':
 		return ('zipwire', d[1], bytes.fromhex(d[2]), d[3])
+	if k == 'form':
+		return ('form', d[1], tuple(tuple(p) for p in d[2]))
 	return tuple(d)
 
 
@@ -705,6 +748,6 @@ def call_witness(name):
 
 LEVEL_TEXT = ('Theorems for EVERY codec pair (enc, dec) with dec (enc x) = x and all piece lists: Body.compress then decompress returns the content; the octets the body iterator puts on the wire (one coded stream, Content-Length or chunk framing) '
 	'dechunk and decode back to the content, for every piece list, empty pieces and empty content included. Multipart: for every boundary and every list of (header section, content) parts in which the delimiter does not occur (not even straddling the part end), '
-	'decode (encode parts) = parts - arbitrary binary contents, any number of parts; text/plain: decode (encode t) = t for UTF-8, ISO-8859-1, ASCII wherever encode succeeds. Model tied to the code by correspondence on the body iterator, multipart encode/decode (also mutated data), text/plain. '
+	'decode (encode parts) = parts - arbitrary binary contents, any number of parts; text/plain: decode (encode t) = t for UTF-8, ISO-8859-1, ASCII wherever encode succeeds; form data: decode (encode pairs) = pairs for all pair lists with non-empty names (the theorems of C13, guard: no octet below 0x10, F1). Model tied to the code by correspondence on the body iterator, multipart encode/decode (also mutated data), text/plain, form data. '
 	'That zlib/gzip satisfy the law, JSON and message/http: oracle on the real code.')
 LEVEL_NOTE = 'Trusted: Lean kernel; correspondence harness; zlib, json and the str codecs (stdlib). Defects found by this check were repaired (fixed: F41 per-piece compression truncated multi-piece deflate bodies, F43 empty coded body answered 400, F44 message/http without header fields, F24 multipart part without header fields).'
